@@ -21,7 +21,7 @@ def bestLoop (p : Packet) : List Rule → Option ABuf → Py (Option ABuf)
   | [], best => pure best
   | r :: rs, best => do
     if ← ruleMatches p r then
-      let c ← compress p r
+      let c ← compressD p r (some p.dir)
       let best' := match best with
         | none => some c
         | some b => if c.length < b.length then some c else some b
@@ -34,7 +34,7 @@ def managerCompressPacket (rules : List Rule) (pd : Packet) (dir : Dir) (strat :
   match strat with
   | .first =>
     match ← matchFirst rules p with
-    | some r => compress p r
+    | some r => compressD p r (some p.dir)
     | none => throw .ruleDescriptorMatchError
   | .best =>
     match ← bestLoop p rules none with
@@ -46,10 +46,10 @@ def managerCompress (parsers : List ParserInst) (rules : List Rule) (packet : AB
   let pd ← packetParse (fuelFor packet) parsers packet
   managerCompressPacket rules pd dir strat
 
-/-- `ContextManager.decompress(schc_packet)` -/
-def managerDecompress (rules : List Rule) (s : ABuf) : Py ABuf := do
+/-- `ContextManager.decompress(schc_packet, direction=None)` -/
+def managerDecompress (rules : List Rule) (s : ABuf) (d : Option Dir := none) : Py ABuf := do
   let r ← matchSchc rules s
-  decompress s r
+  decompressD s r d
 
 /-- `SCHC.compress(packet, interface_id)`: contexts of the interface in order; ParserError and
     RuleDescriptorMatchError fall through, anything else escapes -/
